@@ -131,7 +131,11 @@ func lblSame(a, b ot.Label) bool {
 func garbleOnce(res *Result, c *circuit.Circuit, gc *gCase, rng *rand.Rand, keyLen int, pat ...string) *gObs {
 	// one key buffer serves all garblings (Garble must not retain the caller's slice)
 	key := c01KeyBuf[:keyLen]
-	rng.Read(key)
+	if len(pat) > 1 && pat[1] == "keep-key-bytes" {
+		// the key of this garbling is a prefix / an extension of the previous call's key bytes
+	} else {
+		rng.Read(key)
+	}
 	var src io.Reader = rng
 	if len(pat) > 0 && pat[0] != "" {
 		src = &patRand{kind: pat[0]}
@@ -287,7 +291,11 @@ func c01Main(args []string) error {
 				if r == reps-1 {
 					pat = []string{"zero", "ones", "count", "sparse"}[idx%4]
 				}
-				obs := garbleOnce(res, c, &gc, rng, keyLens[(idx+r/2)%3], pat) // two garblings in a row with one key length
+				keep := ""
+				if r == 2 && idx%2 == 1 {
+					keep = "keep-key-bytes" // the key length changes here: 16 -> 24, 24 -> 32 or 32 -> 16 of the same bytes
+				}
+				obs := garbleOnce(res, c, &gc, rng, keyLens[(idx+r/2)%3], pat, keep) // two garblings in a row with one key length
 				if obs != nil {
 					for _, t := range obs.tuple {
 						tuples[t] = true
